@@ -652,3 +652,16 @@ package immutable
 //@     invariant lastItr < itrIndex
 //@   loop 2
 //@     invariant lastItr <= itrIndex && (lastItr < itrIndex ==> segIndex == (itrIndex == c.iteratorStart ? c.segmentIndex : 0))
+
+// Streaming compaction does not recompute the statistics of a merged chunk: it MERGES those of the source chunks. The
+// merged minimum / maximum of an integer column is exactly the smaller / larger of the two stored values (compared as
+// 64-bit integers - a detour through float64 rounds values beyond 2^53 and stores a number no row holds), with the time
+// that belongs to it (the earlier time on a tie); sum and count add up.
+//@ prop C09
+//@ func (*IntegerPreAgg).merge
+//@   requires m != nil && other != nil && m != other && len(m.values) == 6 && len(other.values) == 6 && arrayid(m.values) != arrayid(other.values)
+//@   ensures [merged_min_is_the_smaller_stored_min] m.values[0] == (old(other.values[0]) < old(m.values[0]) ? old(other.values[0]) : old(m.values[0]))
+//@   ensures [merged_max_is_the_larger_stored_max] m.values[1] == (old(other.values[1]) > old(m.values[1]) ? old(other.values[1]) : old(m.values[1]))
+//@   ensures [time_of_a_new_min_comes_with_it] old(other.values[0]) < old(m.values[0]) ==> m.values[2] == old(other.values[2])
+//@   ensures [time_of_a_new_max_comes_with_it] old(other.values[1]) > old(m.values[1]) ==> m.values[3] == old(other.values[3])
+//@   ensures [count_adds_up] m.values[5] == old(m.values[5]) + old(other.values[5])
